@@ -163,4 +163,13 @@ func init() {
 		"func (v Boolean) JQValueHas(key any) any {\n\treturn false", "Boolean.Has")
 	add("c08-errs-base-index-nil", "C08.errs", T,
 		"\treturn ExpectedArrayWithIndexError{Typ: v.Typ, Index: index}", "\treturn nil", "StructDecodeValue.Index")
+	// round 5: name index and child list of a struct stay together (borrowed C03 obligations)
+	add("c08-byname-remove-keeps-name-for-structs", "C08.byname", "pkg/decode/value.go",
+		"\t\tif !fv.IsArray {\n\t\t\tif _, ok := fv.ByName[v.Name]; !ok {", "\t\tif fv.IsArray {\n\t\t\tif _, ok := fv.ByName[v.Name]; !ok {", "remove-struct-deletes-name")
+	add("c08-byname-remove-deletes-parent-name", "C08.byname", "pkg/decode/value.go",
+		"delete(fv.ByName, v.Name)", "delete(fv.ByName, p.Name)", "delete-key")
+	add("c08-bynameadd-struct-child-not-appended", "C08.bynameadd", "pkg/decode/decode.go",
+		"\t\tfv.Children = append(fv.Children, v)\n\t}\n}", "\t\tif !fv.IsArray {\n\t\t\tfv.Children = append(fv.Children, v)\n\t\t}\n\t}\n}", "AddChild:struct-insert-on-every-path")
+	add("c08-bynameown-decoder-deletes-name", "C08.bynameown", "format/riff/wav.go",
+		"func wavDecode(d *decode.D) any {", "func wavDecode(d *decode.D) any {\n\tif c, ok := d.Value.V.(*decode.Compound); ok {\n\t\tdelete(c.ByName, \"x\")\n\t}", "Compound.ByName|format/riff.wavDecode")
 }
